@@ -217,6 +217,7 @@ def main(argv=None):
             k = match_known(known, prop, b["name"], b.get("instance", ""), b.get("what", ""))
             if k is not None:
                 lines.append(f"KNOWN-FINDING: property={prop} {k['id']}: {k['what']} [bounded {b['name']}]")
+                seen_known.add(k["id"])
                 continue
             bviol += 1
             slug = re.sub(r"[^A-Za-z0-9_.-]+", "_", f"{prop}-bounded-{b['name']}")[:150]
